@@ -17,6 +17,7 @@ import (
 	"github.com/invopop/gobl/currency"
 	"github.com/invopop/gobl/l10n"
 	"github.com/invopop/gobl/num"
+	"github.com/invopop/gobl/org"
 	"github.com/invopop/gobl/tax"
 	"goblverif/internal/tr"
 
@@ -66,6 +67,9 @@ type jSummary struct {
 	PSum tr.Amt `json:"psum"`
 }
 type taxCase struct {
+	// CC: the country the calculator works for ("" = ES); combos naming it lose their country, combos naming
+	// another code keep it -- also when that code is an alternative code of the same regime (GR for EL, XI for GB)
+	CC   string `json:"cc,omitempty"`
 	CD   int    `json:"cd"`
 	RR   string `json:"rr"`
 	Inc  string `json:"inc"`
@@ -136,7 +140,8 @@ func retainedIn(country, cat string) bool {
 // summaryOf projects a real tax.Total; precise=false copies the presented figures into
 // the precise slots (Merge/Negate are specified on presented figures only).
 func summaryOf(t *tax.Total, precise bool) jSummary {
-	s := jSummary{Cats: []jCat{}}
+	z := tr.Amt{V: tr.BigOfInt(0), E: 0}
+	s := jSummary{Cats: []jCat{}, Sum: z, PSum: z}
 	if t == nil {
 		return s
 	}
@@ -168,7 +173,8 @@ func summaryOf(t *tax.Total, precise bool) jSummary {
 // taxBuild runs the real calculator on a case.  Rate keys other than "exempt" are not
 // passed on (explicit percentages, so that rate tables do not interfere: C12 covers them).
 func taxBuild(c taxCase) (ev taxEvent, total *tax.Total) {
-	ev = taxEvent{K: "build", CD: c.CD, RR: c.RR, Inc: c.Inc, Rows: []jRow{}, Out: jSummary{Cats: []jCat{}}}
+	zero := tr.Amt{V: tr.BigOfInt(0), E: c.CD}
+	ev = taxEvent{K: "build", CD: c.CD, RR: c.RR, Inc: c.Inc, Rows: []jRow{}, Out: jSummary{Cats: []jCat{}, Sum: zero, PSum: zero}}
 	defer func() {
 		if r := recover(); r != nil {
 			ev.Ok, ev.Err = false, fmt.Sprintf("panic:%v", r)
@@ -203,20 +209,29 @@ func taxBuild(c taxCase) (ev taxEvent, total *tax.Total) {
 		rows = append(rows, row)
 		lines = append(lines, row)
 	}
-	tc := &tax.TotalCalculator{Country: "ES", Rounding: cbc.Key(c.RR), Currency: cdCurrency[c.CD],
+	home := "ES"
+	if c.CC != "" {
+		home = c.CC
+	}
+	tc := &tax.TotalCalculator{Country: l10n.TaxCountryCode(home), Rounding: cbc.Key(c.RR), Currency: cdCurrency[c.CD],
 		Date: cal.MakeDate(2024, 6, 1), Lines: lines, Includes: cbc.Code(c.Inc)}
 	t := new(tax.Total)
 	err := tc.Calculate(t)
 	// log the rows as the calculator saw them (combos are resolved in place)
 	for i, row := range rows {
 		jr := jRow{Total: c.Rows[i].Total, Taxes: []jCombo{}}
-		for _, cb := range row.taxes {
-			cc := string(cb.Country)
+		for k, cb := range row.taxes {
+			// the country as the input gave it: only the calculator's own code is dropped
+			in := c.Rows[i].Taxes[k].Country
+			if in == home {
+				in = ""
+			}
+			cc := in
 			if cc == "" {
-				cc = "ES"
+				cc = home
 			}
 			jr.Taxes = append(jr.Taxes, jCombo{Cat: string(cb.Category), Ret: retainedIn(cc, string(cb.Category)), Key: string(cb.Rate),
-				Country: string(cb.Country), Ext: extString(cb.Ext), Pct: optPct(cb.Percent), Sur: optPct(cb.Surcharge)})
+				Country: in, Ext: extString(cb.Ext), Pct: optPct(cb.Percent), Sur: optPct(cb.Surcharge)})
 		}
 		ev.Rows = append(ev.Rows, jr)
 	}
@@ -336,6 +351,135 @@ func taxRandomCase(r *rand.Rand) taxCase {
 	return c
 }
 
+// altHome turns a case into one of a regime that has an alternative country code: VAT only, overrides by the
+// alternative code, by the regime's own code and by another country
+func altHome(r *rand.Rand, c taxCase) taxCase {
+	pair := [][2]string{{"EL", "GR"}, {"GB", "XI"}, {"GB", "XU"}}[r.Intn(3)]
+	c.CC = pair[0]
+	c.Inc = ""
+	for i := range c.Rows {
+		var keep []jCombo
+		for _, cb := range c.Rows[i].Taxes {
+			if cb.Cat != "VAT" {
+				continue
+			}
+			cb.Ext = ""
+			switch r.Intn(4) {
+			case 0:
+				cb.Country = pair[1]
+			case 1:
+				cb.Country = pair[0]
+			case 2:
+				cb.Country = "PT"
+			default:
+				cb.Country = ""
+			}
+			if len(cb.Pct) == 0 {
+				cb.Pct, cb.Stale = []tr.Amt{{V: tr.BigOfInt(0), E: 2}}, nil // these regimes define no "exempt" key: a zero rate instead
+			}
+			keep = append(keep, cb)
+		}
+		if keep == nil {
+			keep = []jCombo{}
+		}
+		c.Rows[i].Taxes = keep
+	}
+	return c
+}
+
+// taxDocBuild: the rows are those of a document -- its lines, its discounts (negatively) and its charges -- and the
+// summary is the one the document presents.  Quantities are whole and prices and fixed amounts have the currency's
+// decimals, so that the presented totals are the exact ones under either rule.
+func taxDocBuild(r *rand.Rand) (ev taxEvent) {
+	rr := []string{"precise", "currency"}[r.Intn(2)]
+	zero := tr.Amt{V: tr.BigOfInt(0), E: 2}
+	ev = taxEvent{K: "build", CD: 2, RR: rr, Rows: []jRow{}, Out: jSummary{Cats: []jCat{}, Sum: zero, PSum: zero}}
+	defer func() {
+		if p := recover(); p != nil {
+			ev.Ok, ev.Err = false, fmt.Sprintf("panic:%v", p)
+		}
+	}()
+	combos := func() tax.Set {
+		if r.Intn(8) == 0 {
+			return nil
+		}
+		pcts := []int64{21, 10, 4, 0}
+		p := num.MakePercentage(pcts[r.Intn(len(pcts))], 2)
+		cb := &tax.Combo{Category: "VAT", Percent: &p}
+		switch r.Intn(7) {
+		case 0:
+			cb.Percent, cb.Rate = nil, "exempt"
+		case 1:
+			sp := num.MakePercentage(52, 3)
+			cb.Surcharge = &sp
+		case 2:
+			cb.Country = "PT"
+		case 3:
+			cb.Country = "PT"
+			sp := num.MakePercentage(10, 3)
+			cb.Surcharge = &sp
+		}
+		set := tax.Set{cb}
+		if r.Intn(4) == 0 {
+			rp := num.MakePercentage(15, 2)
+			set = append(set, &tax.Combo{Category: "IRPF", Percent: &rp})
+		}
+		return set
+	}
+	cents := func(max int64, signed bool) num.Amount {
+		v := 1 + r.Int63n(max)
+		if signed && r.Intn(3) == 0 {
+			v = -v
+		}
+		return num.MakeAmount(v, 2)
+	}
+	inv := &bill.Invoice{Regime: tax.WithRegime("ES"), Currency: "EUR", IssueDate: cal.MakeDate(2024, 6, 1), Tax: &bill.Tax{Rounding: cbc.Key(rr)}}
+	for n := 1 + r.Intn(4); n > 0; n-- {
+		q := int64(1 + r.Intn(20))
+		if r.Intn(5) == 0 {
+			q = -q
+		}
+		price := cents(500000, false)
+		inv.Lines = append(inv.Lines, &bill.Line{Quantity: num.MakeAmount(q, 0), Item: &org.Item{Name: "x", Price: &price}, Taxes: combos()})
+	}
+	for n := r.Intn(3); n > 0; n-- {
+		inv.Discounts = append(inv.Discounts, &bill.Discount{Reason: "d", Amount: cents(50000, true), Taxes: combos()})
+	}
+	for n := r.Intn(3); n > 0; n-- {
+		inv.Charges = append(inv.Charges, &bill.Charge{Reason: "c", Amount: cents(50000, true), Taxes: combos()})
+	}
+	if err := inv.Calculate(); err != nil {
+		ev.Err = err.Error()
+		return ev
+	}
+	row := func(total num.Amount, set tax.Set) {
+		jr := jRow{Total: amtOf(total), Taxes: []jCombo{}}
+		for _, cb := range set {
+			cc := string(cb.Country)
+			if cc == "" {
+				cc = "ES"
+			}
+			jr.Taxes = append(jr.Taxes, jCombo{Cat: string(cb.Category), Ret: retainedIn(cc, string(cb.Category)), Key: string(cb.Rate),
+				Country: string(cb.Country), Ext: extString(cb.Ext), Pct: optPct(cb.Percent), Sur: optPct(cb.Surcharge)})
+		}
+		ev.Rows = append(ev.Rows, jr)
+	}
+	for _, l := range inv.Lines {
+		row(*l.Total, l.Taxes)
+	}
+	for _, d := range inv.Discounts {
+		row(d.Amount.Invert(), d.Taxes)
+	}
+	for _, c := range inv.Charges {
+		row(c.Amount, c.Taxes)
+	}
+	ev.Ok = true
+	if inv.Totals != nil && inv.Totals.Taxes != nil {
+		ev.Out = summaryOf(inv.Totals.Taxes, true)
+	}
+	return ev
+}
+
 func taxRecord(seed int64, n int, out string) error {
 	r := rand.New(rand.NewSource(seed))
 	w, err := tr.NewWriter(out)
@@ -345,10 +489,16 @@ func taxRecord(seed int64, n int, out string) error {
 	var totals []*tax.Total
 	for i := 0; i < n; i++ {
 		c := taxRandomCase(r)
+		if i%7 == 3 {
+			c = altHome(r, c)
+		}
 		ev, t := taxBuild(c)
 		w.Emit(ev)
 		if t != nil && c.CD == 2 {
 			totals = append(totals, t)
+		}
+		if i%5 == 0 {
+			w.Emit(taxDocBuild(r))
 		}
 	}
 	for i := 0; i < n/2 && len(totals) > 1; i++ {
